@@ -3296,6 +3296,7 @@ std::vector<std::string> tier_schemas(const std::string& tier, const std::string
 }
 
 // All single faults of one fault-free run (the enumeration space of C20).
+const int K_KILLPOINT = -2; // pseudo call kind of the enumeration: not a failing call but the death of the process at call `ordinal`
 struct EnumPoint
 {
     std::string schema;
@@ -3367,6 +3368,14 @@ const std::vector<EnumPoint>& enumeration(const std::string& tier)
             default: break;
             }
         }
+        // crash enumeration: the invocation dies at every call of its fault-free trace (and once after the last
+        // one: everything written, nothing flushed by exit) - as a process kill, and as a power loss under three
+        // different seeds of what survives; the plan then restarts the same command on what is left
+        for(long k = 0; k <= (long)ref.trace.size(); k++)
+        {
+            pts.push_back({s, K_KILLPOINT, k, "proc", 0});
+            for(long sd = 1; sd <= 3; sd++) pts.push_back({s, K_KILLPOINT, k, "power", sd * 7919 + k});
+        }
     }
     return g_enum_cache[tier] = pts;
 }
@@ -3396,6 +3405,17 @@ Plan gen_c20(u64 seed, const std::string& tier)
     {
         // enumerated: exactly one fault, fresh file system
         const EnumPoint& e = en[idx - 1];
+        if(e.kind == K_KILLPOINT)
+        {
+            p.set("mode", "enumerated-crash-point");
+            Op k;
+            k.name = "kill";
+            k.a = {e.ordinal, e.outcome == "power" ? 1 : 0, e.arg};
+            p.ops.push_back(k);
+            p.ops.push_back(run_op(e.schema, 0, 0)); // dies
+            p.ops.push_back(run_op(e.schema, 0, 0)); // the restart: judged in full
+            return p;
+        }
         p.set("mode", "enumerated-single-fault");
         p.ops.push_back(fault_op(e));
         p.ops.push_back(run_op(e.schema, 0, 0));
@@ -3795,6 +3815,11 @@ int main(int argc, char** argv)
         std::string tier = argc >= 3 ? argv[2] : "quick";
         const auto& en = enumeration(tier);
         printf("ENUM %zu\n", en.size());
+        {
+            size_t crash = 0;
+            for(auto& e : en) crash += e.kind == K_KILLPOINT;
+            printf("CRASHPOINTS %zu\n", crash);
+        }
         std::map<std::string, long> per;
         for(auto& e : en) per[e.schema]++;
         for(auto& kv : per)
